@@ -130,10 +130,11 @@ class Sim:
             h.update(b"\n")
         return h.hexdigest()[:16]
 
-    def alias(self, hashdir):
+    def alias(self, hashdir, prefix="H"):
         a = self.aliases.get(hashdir)
         if a is None:
-            a = self.aliases[hashdir] = "H%d" % len(self.aliases)
+            n = sum(1 for v in self.aliases.values() if v.startswith(prefix))
+            a = self.aliases[hashdir] = "%s%d" % (prefix, n)
         return a
 
 
